@@ -91,7 +91,6 @@ NOT_APPLICABLE = {
     'C11': 'atomicity is a frame condition over the whole Database through executors, evaluator and triggers; discharging it needs the whole executor inside the verifier',
     'C12': 'two-table history invariant enforced by four executors through evaluator and catalog; no function-sized kernel carries a clause',
     'C13': 'begin/rollback are two clone()s; the state the property worries about (index registry, caches) is outside their frame - an absent assignment cannot be refuted by a contract on these functions',
-    'C15': 'the mirror invariant lives in HashMap<Vec<SqlValue>,_> maintenance code (table/indexes.rs, database/indexes): infeasible in CBMC (2-entry map > 10 min) and outside the Verus-accepted subset without rewriting it into a model. Only the Table-level protocol over ASSUMED IndexManager contracts is proved (unit K-table, counted under C09/C10, not as a decision of C15)',
     'C16': 'DiskBacked arms need a live BTreeIndex over file I/O inside HashMap-iterating closure-heavy maintenance bodies; cannot be extracted mechanically',
     'C19': 'String/chars()/lines() scanners: Verus has no str iteration theory; CBMC cannot get past 3 symbolic bytes (Date::from_str on 6 bytes = 25 GB)',
     'C22': 'from_str/Display go through str parsing and core::fmt padding: 3 ASCII bytes = 78 s in CBMC, 6 bytes does not finish; no str theory in Verus',
@@ -129,6 +128,20 @@ CLAIMS['C06'] = ('proof',
 def _extend(pid, extra):
     c = CLAIMS[pid]
     CLAIMS[pid] = (c[0], c[1] + ' ' + extra, c[2], c[3], c[4])
+
+CLAIMS['C15'] = ('proof',
+    'Kernel contracts, one operation each; the quantifier over HISTORIES is the induction over these operations and is not machine-checked as a whole. '
+    '(a) Constraint hash indexes: on the real IndexManager (unit K-index) new makes one empty map per constraint, rebuild makes every map exactly "key -> position of the row with that key", '
+    'update_for_insert KEEPS that mirror when the row goes to position rows.len(), update_for_update / update_selective keep it on a duplicate-free table when the written keys are held by no other row '
+    '(the premise PRIMARY KEY / UNIQUE enforcement establishes: C10) and - selective - every index not told to update has an unchanged key (get_affected_indexes names exactly the indexes with a changed column); '
+    'every Table mutator (insert, update_row, update_row_selective, delete_where, remove_row, clear, rebuild_indexes) re-establishes "the hash indexes mirror the row vector, the rows are duplicate-free" over exactly those contracts '
+    '(unit K-table): writes store the STORED form of the row at the stated position, removals rebuild because positions shift. '
+    '(b) User-defined (CREATE INDEX) indexes: the per-index insert and update steps keep the mirror "under each key exactly the positions of the rows with that key, each once, no empty list" (unit I-maint); '
+    'INSERT maintains them with the stored row at the position it received, after the unique check (I-insert); UPDATE with the old row and the row now stored at that position (I-update, U-apply); '
+    'DELETE, DELETE without WHERE, TRUNCATE, ROLLBACK, ROLLBACK TO SAVEPOINT and a binary reload rebuild them from the rows directly after the rows changed (D-apply, T-clear, K-undo, P-data), and a rebuild / CREATE INDEX builds from the rows of the table the name resolves to (I-resolve). '
+    'NOT under contract: ALTER TABLE (Table::rows_mut / schema_mut; observed to leave catalog and table inconsistent), the disk-backed index arm, the JSON / SQL-dump loaders, the registry loop around the per-index steps, '
+    'BTreeMap / HashMap themselves (assumed finite maps), the cascade executors, that the executors establish the freshness premise.',
+    _B_NOTE, 'contract-based deductive verification: Verus on mechanically extracted functions (mirror invariant as pre/postconditions quantified over the mirrored row vector + induction lemmas; trace contracts for the executors)', 'DESIGN.md 9c/C15')
 
 _extend('C14', 'ADDED (unit K-undo): Database::rollback_to_savepoint / undo_change apply the inverse of every change recorded since the savepoint, last first, '
         'over table contents as bags (Insert: take the row out; Update: take the NEW row out, put the OLD row back; Delete: put the row back). That the executors RECORD '
